@@ -4,11 +4,75 @@ import (
 	"flag"
 	"fmt"
 	"os"
+	"path/filepath"
+	"strconv"
 	"strings"
+	"time"
 
 	"pv/internal/load"
 	"pv/internal/own"
+	"pv/internal/report"
+	"pv/internal/rules"
 )
+
+func check(args []string) int {
+	fs := flag.NewFlagSet("check", flag.ExitOnError)
+	repo := fs.String("repo", "/repo", "repository root")
+	verif := fs.String("verif", "/verif", "verification directory")
+	tier := fs.String("tier", "quick", "quick|thorough")
+	fs.Parse(args)
+	if fs.NArg() != 1 {
+		fmt.Fprintln(os.Stderr, "usage: pv check [-tier quick|thorough] <ID>")
+		return 2
+	}
+	id := fs.Arg(0)
+	started := time.Now()
+	prop := rules.Registry[id]
+	if prop == nil {
+		fmt.Fprintf(os.Stderr, "unknown property %s (known: %v)\n", id, rules.IDs())
+		return 2
+	}
+	seed := 0
+	if s := os.Getenv("VERIF_SEED"); s != "" {
+		seed, _ = strconv.Atoi(s)
+	}
+	known, err := report.LoadKnown(filepath.Join(*verif, "known_findings.json"))
+	if err != nil {
+		fmt.Fprintln(os.Stderr, err)
+		return 2
+	}
+	abs, _ := filepath.Abs(*repo)
+	type cfg struct{ arch, cg string }
+	cfgs := []cfg{{"amd64", "vta"}}
+	if *tier == "thorough" {
+		cfgs = append(cfgs, cfg{"386", "vta"}, cfg{"amd64", "cha"})
+	}
+	var results []*report.Result
+	for _, cf := range cfgs {
+		name := "GOARCH=" + cf.arch + " callgraph=" + cf.cg
+		p, err := load.Load(load.Config{Dir: abs, GOARCH: cf.arch, CG: cf.cg})
+		if err != nil {
+			r := report.NewResult(id, name)
+			r.Fail("undecided", "load", "load "+name, "-", "-", "the checker cannot read the tree, so nothing is certified: "+err.Error())
+			results = append(results, r)
+			continue
+		}
+		c := rules.NewCtx(p, id, name)
+		func() {
+			defer func() {
+				if rec := recover(); rec != nil {
+					c.R.Fail("undecided", "checker-panic", "panic "+name, "-", "-", fmt.Sprintf("checker panicked: %v", rec))
+				}
+			}()
+			prop.Run(c)
+		}()
+		c.R.Finish()
+		c.R.Extra["packages"] = p.LibKeys()
+		c.R.Extra["library_functions"] = len(p.LibFuncs)
+		results = append(results, c.R)
+	}
+	return report.Emit(*verif, prop.Meta, *tier, seed, results, known, started, nil)
+}
 
 func main() {
 	if len(os.Args) < 2 {
@@ -16,6 +80,8 @@ func main() {
 		os.Exit(2)
 	}
 	switch os.Args[1] {
+	case "check":
+		os.Exit(check(os.Args[2:]))
 	case "own":
 		fs := flag.NewFlagSet("own", flag.ExitOnError)
 		repo := fs.String("repo", "/repo", "repository root")
